@@ -5,6 +5,7 @@ arithmetic as ground truth, np.shares_memory and deep snapshots for aliasing).''
 import json
 import math
 import operator
+import time
 from collections import OrderedDict
 
 import numpy as np
@@ -63,12 +64,12 @@ def arrays_of(obj):
     return [a for a in out if isinstance(a, np.ndarray)]
 
 
-def shares(comp, others):
+def shares(comp, others, with_mask=True):
     if not isinstance(comp, np.ndarray):
         return False
     mine = [comp]
     msk = np.ma.getmask(comp)
-    if msk is not np.ma.nomask:
+    if with_mask and msk is not np.ma.nomask:
         mine.append(msk)
     return any(np.shares_memory(a, b) for a in mine for b in others)
 
@@ -253,7 +254,9 @@ def oracle_binop(ctx, kind, left, rhs, out, case, expect_raise):
         exp = expected_error(kind, is_ds, float(v1s[k]), float(e1s[k]), float(v2s[k]), float(e2s[k]))
         if exp is not None and e1s[k] >= 0 and e2s[k] >= 0 and not feq_tol(float(ges[k]), exp[0], exp[1]):
             what = ('quadratic sum of the ' + ('absolute' if kind in ('add', 'sub') else 'relative')
-                    + ' errors') if is_ds else 'error scaled by the magnitude of the factor'
+                    + ' errors') if is_ds else ('error of the left operand (a shift leaves it alone)'
+                                                if kind in ('add', 'sub') else
+                                                'error scaled by the magnitude of the factor')
             ctx.oracle_failure(f'{tag}: error {float(ges[k])!r} is not the {what} {exp[0]!r} '
                                f'(cell {k}: v1={float(v1s[k])!r} e1={float(e1s[k])!r} '
                                f'v2={float(v2s[k])!r} e2={float(e2s[k])!r}) :: {case}',
@@ -692,7 +695,9 @@ def run_impl(ctx, case, steps):
             break
         theirs = [a for x in operands for a in arrays_of(x)]
         step['res'] = {'ok': ds_json(out)}
-        step['shares'] = [shares(out.value, theirs), shares(out.error, theirs),
+        # mask buffers count for copy() only: numpy.ma may hand an operand's mask on
+        wmask = kind == 'copy'
+        step['shares'] = [shares(out.value, theirs, wmask), shares(out.error, theirs, wmask),
                           any(shares(b, theirs) for b in out.bins.values())]
         if step['res']['ok']['shape'] != step['res']['ok']['eshape']:
             break               # reported by the oracle; nothing to compare cell by cell
@@ -716,15 +721,18 @@ def run(ctx):
     quick = ctx.tier == 'quick'
     cases = corpus()
     ctx.count('corpus', len(cases))
-    nrand = 1500 if quick else 20000
+    nrand = 1000 if quick else 20000
     for k in range(nrand):
         special = 0.15 if k % 10 == 9 else 0.0
         cases.append(gen_case(ctx.rng, special=special))
         ctx.count('special_value_chains' if special else 'finite_chains')
     steps = []
+    t_impl = time.time()
     for case in cases:
         nontrivial = run_impl(ctx, case, steps)
         ctx.case_seen(case, nontrivial, sample_every=997)
+    ctx.extra['implementation_and_oracle_s'] = round(time.time() - t_impl, 1)
+    t_model = time.time()
     # model side
     nshards = max(1, min(64 if not quick else 16, len(steps) // 40))
     size = min(400, -(-len(steps) // nshards))
@@ -741,6 +749,7 @@ def run(ctx):
             ctx.mismatch(f'step {opi} ({st["mop"]["op"]}) on shape {st["ds"]["shape"]}: implementation '
                          f'returned {json.dumps(st["res"])[:300]}', {'case': case, 'step': st})
     ctx.extra['model_steps_compared'] = len(steps)
+    ctx.extra['model_s'] = round(time.time() - t_model, 1)
     ctx.assumptions = [
         'the plain numpy operation on the raw arrays and python float arithmetic (math.sqrt) are the '
         'ground truth of the oracle; numpy broadcasting of an ndarray operand is trusted',
@@ -758,14 +767,30 @@ def replay(ctx, path):
         case = case['case']
     steps = []
     run_impl(ctx, case, steps)
+    def show(j):
+        if 'raise' in j:
+            return 'raises ' + j['raise']
+        j = j['ok']
+        return (f"shape {j['shape']} value {[bits_f64(b) for b in j['value']]} "
+                f"error {[bits_f64(b) for b in j['error']]} mask {j['mask']} "
+                f"bins {[(n, [bits_f64(x) for x in b]) for n, b in j['bins']]} "
+                f"name {j['name']!r} what {j['what']!r}")
     for _, opi, st in steps:
-        print(f'impl step {opi}:', json.dumps(st))
+        print(f'step {opi}: {json.dumps(st["mop"])[:400]}')
+        print('   on  :', show({'ok': st['ds']}))
+        print('   impl:', show(st['res']), 'shares(value,error,bins)', st['shares'])
     if steps:
-        body = ('Eval vm_compute in map (fun c => match c with (d, o, _, _) => run_op d o end) '
-                + '[' + ';\n '.join(coq_step(st) for _, _, st in steps) + '].\n'
-                + 'Eval vm_compute in bad_indices (map check_case ['
-                + ';\n '.join(coq_step(st) for _, _, st in steps) + ']).')
-        print('model:', common.coq_eval(ctx.pid, IMPORTS, [body])[0])
+        lits = '[' + ';\n '.join(coq_step(st) for _, _, st in steps) + ']'
+        body = ('Definition cases := ' + lits + '.\n'
+                'Eval vm_compute in map (fun c => match c with (d, o, _, _) => res_show (run_op d o) end) '
+                'cases.\nEval vm_compute in bad_indices (map check_case cases).')
+        out = common.coq_eval(ctx.pid, IMPORTS, [body])[0]
+        blocks = common.parse_eval_blocks(out)
+        text = blocks[0] if blocks else out
+        import re
+        text = re.sub(r'\b(\d{16,20})\b', lambda m: m.group(1) + f'(={bits_f64(int(m.group(1)))!r})', text)
+        print('model results per step (bit patterns with their float):\n', text)
+        print('steps where model and implementation disagree:', blocks[1] if len(blocks) > 1 else '?')
     for v in ctx.violations:
         print('oracle:', v[1][:600])
     return 0
